@@ -388,16 +388,16 @@ func vfcRun(scn *vfcScn) (*vfcResult, error) {
 
 // ---------------------------------------------------------------- monitor (independent of the Lean model)
 
-type vfcViol struct{ what, detail string }
+type vfcViol struct{ what, detail, cause string }
 
 func vfcMonitor(scn *vfcScn, res *vfcResult) []vfcViol {
 	var out []vfcViol
 	txn := scn.Mode == "txn" || scn.Mode == "txnpipe" || scn.Mode == "stxn" || scn.Mode == "stxnpipe"
 	for _, m := range res.InFlight {
-		out = append(out, vfcViol{"exec-returned-with-commands-in-flight", m})
+		out = append(out, vfcViol{"exec-returned-with-commands-in-flight", m, ""})
 	}
 	for _, id := range res.Dropped {
-		out = append(out, vfcViol{"put-silently-dropped", fmt.Sprintf("Put of cmd %d returned nil but the command was not routed to any node", id)})
+		out = append(out, vfcViol{"put-silently-dropped", fmt.Sprintf("Put of cmd %d returned nil but the command was not routed to any node", id), ""})
 	}
 	keysOf := map[int][]int{}
 	for _, b := range scn.Batches {
@@ -420,13 +420,65 @@ func vfcMonitor(scn *vfcScn, res *vfcResult) []vfcViol {
 			redirected[idBatch[id]] = true
 		}
 	}
-	last := map[[2]int]int{} // (seg,key) -> last executed id
+	// positions in the global trace: of every execution (in the order of res.Execs) and of the
+	// first MOVED/ASK answer to each command (a transaction's answer counts for all its commands)
+	batchIDs := map[int][]int{}
+	for _, at := range res.Attempts {
+		batchIDs[at.Batch] = at.IDs
+	}
+	var execPos []int
+	firstRedirect := map[int]int{}
+	putPos, dispPos, recvPos := map[int]int{}, map[int]int{}, map[int]int{} // cmd -> P, batch -> D, batch -> E
+	for i, ev := range res.Trace {
+		p := strings.Split(ev, ":")
+		switch p[0] {
+		case "P":
+			var id int
+			fmt.Sscan(p[2], &id)
+			putPos[id] = i
+		case "D", "E":
+			var b int
+			fmt.Sscan(p[1], &b)
+			if p[0] == "D" {
+				dispPos[b] = i
+			} else {
+				recvPos[b] = i
+			}
+		}
+		if (p[0] != "q" && p[0] != "t") || len(p) != 5 {
+			continue
+		}
+		var id int
+		fmt.Sscan(p[2], &id)
+		ids := []int{id}
+		if p[0] == "t" {
+			ids = batchIDs[idBatch[id]]
+		}
+		switch p[4][0] {
+		case 'x':
+			for range ids {
+				execPos = append(execPos, i)
+			}
+		case 'm', 'a':
+			for _, x := range ids {
+				if _, ok := firstRedirect[x]; !ok {
+					firstRedirect[x] = i
+				}
+			}
+		}
+	}
+	lastPos := map[[2]int]int{} // (seg,key) -> trace position of the execution of last[…]
+	last := map[[2]int]int{}    // (seg,key) -> last executed id
 	has := map[[2]int]bool{}
 	execIn := map[[2]int]int{} // (seg,id) -> count
-	for _, e := range res.Execs {
+	for ei, e := range res.Execs {
+		pos := -1
+		if ei < len(execPos) {
+			pos = execPos[ei]
+		}
 		for i, k := range e.Keys {
 			if e.Holder[i] != e.Node {
-				out = append(out, vfcViol{"exec-not-at-holder", fmt.Sprintf("cmd %d key %s executed at node %d, key lives at node %d", e.ID, k, e.Node, e.Holder[i])})
+				out = append(out, vfcViol{"exec-not-at-holder", fmt.Sprintf("cmd %d key %s executed at node %d, key lives at node %d", e.ID, k, e.Node, e.Holder[i]), ""})
 			}
 		}
 		execIn[[2]int{e.Seg, e.ID}]++
@@ -438,7 +490,7 @@ func vfcMonitor(scn *vfcScn, res *vfcResult) []vfcViol {
 					if txn {
 						w = "txn-double-exec"
 					}
-					out = append(out, vfcViol{w, fmt.Sprintf("cmd %d (key %s) executed twice within one run", e.ID, scn.Keys[ki])})
+					out = append(out, vfcViol{w, fmt.Sprintf("cmd %d (key %s) executed twice within one run", e.ID, scn.Keys[ki]), ""})
 				} else if e.ID < last[sk] {
 					// classify by cause: the two commands were routed to different node
 					// queues while both unfinished (D21 same batch, D22 batch in flight)
@@ -452,12 +504,25 @@ func vfcMonitor(scn *vfcScn, res *vfcResult) []vfcViol {
 						// at Receive time, after the newer batch (already in flight) executed
 						w = "pipelined-redirect-reorder"
 					}
+					// the mechanism of D22, read off the trace (not a label): the newer command was put
+					// while the older one's batch was dispatched and not yet received, the older one was
+					// answered MOVED/ASK and followed only after the newer one had executed
+					cause := ""
+					if p1, ok := firstRedirect[lo]; ok && w == "pipelined-redirect-reorder" {
+						bl := idBatch[lo]
+						rp, received := recvPos[bl]
+						inFlight := dispPos[bl] < putPos[hi] && (!received || putPos[hi] < rp) // hi was put while lo's batch was dispatched, not yet received
+						if inFlight && p1 < pos && lastPos[sk] < pos {
+							cause = "redirect-followed-at-receive-while-newer-batch-in-flight"
+						}
+					}
 					out = append(out, vfcViol{w, fmt.Sprintf("key %s: cmd %d (batch %d, routed to node %d) took effect after cmd %d (batch %d, routed to node %d)",
-						scn.Keys[ki], lo, idBatch[lo], idRoute[lo], hi, idBatch[hi], idRoute[hi])})
+						scn.Keys[ki], lo, idBatch[lo], idRoute[lo], hi, idBatch[hi], idRoute[hi]), cause})
 				}
 			}
 			if !has[sk] || e.ID > last[sk] {
 				last[sk] = e.ID
+				lastPos[sk] = pos
 			}
 			has[sk] = true
 		}
@@ -469,7 +534,7 @@ func vfcMonitor(scn *vfcScn, res *vfcResult) []vfcViol {
 		}
 		for id, n := range tot {
 			if n > 1 {
-				out = append(out, vfcViol{"txn-double-exec", fmt.Sprintf("cmd %d executed %d times in transactional mode", id, n)})
+				out = append(out, vfcViol{"txn-double-exec", fmt.Sprintf("cmd %d executed %d times in transactional mode", id, n), ""})
 			}
 		}
 	}
@@ -479,7 +544,7 @@ func vfcMonitor(scn *vfcScn, res *vfcResult) []vfcViol {
 		}
 		for _, id := range at.IDs {
 			if execIn[[2]int{at.Seg, id}] == 0 {
-				out = append(out, vfcViol{"lost-command", fmt.Sprintf("batch %d acknowledged but cmd %d was never executed", at.Batch, id)})
+				out = append(out, vfcViol{"lost-command", fmt.Sprintf("batch %d acknowledged but cmd %d was never executed", at.Batch, id), ""})
 			}
 		}
 	}
@@ -869,9 +934,7 @@ func vfcOne(s *vfutil.Session, idx int, scn *vfcScn) {
 		rp := map[string]interface{}{
 			"scenario": string(js), "mode": scn.Mode, "window": scn.Window, "trace": strings.Join(res.Trace, " "),
 		}
-		if v.what == "pipelined-redirect-reorder" {
-			rp["cause"] = "redirect-followed-at-receive-while-newer-batch-in-flight"
-		}
+		rp["cause"] = v.cause // derived from the trace by the monitor ("" = mechanism not established)
 		s.Violate(v.what, v.detail, rp)
 	}
 }
